@@ -245,7 +245,7 @@ pub fn check(scn: &Scn, r: &ExecResult, log: &[Ev], choices: &[usize], s: &mut S
             s.violation(format!("connect handler called {} times for one client", if ncon == 0 { "0".to_string() } else { "2+".to_string() }), || ctx(format!("client {} connects={}", c, ncon)));
             continue;
         }
-        if !matches!(mine[0], Ev::C(_)) {
+        if scn.p == 1 && !matches!(mine[0], Ev::C(_)) {
             s.violation("a message or disconnect was dispatched before the client's connect", || ctx(format!("client {}", c)));
             continue;
         }
@@ -270,9 +270,18 @@ pub fn check(scn: &Scn, r: &ExecResult, log: &[Ev], choices: &[usize], s: &mut S
         } else {
             want.len()
         };
-        let ok = msgs.len() <= want.len() && msgs.len() >= firm && msgs[..] == want[..msgs.len()];
+        // per-client order is observable through the handler log only with a single handler thread; with more, two
+        // handlers of one client may run concurrently and only exactly-once is demanded
+        let ok = if scn.p == 1 {
+            msgs.len() <= want.len() && msgs.len() >= firm && msgs[..] == want[..msgs.len()]
+        } else {
+            let mut a: Vec<&Vec<u8>> = msgs.clone();
+            a.sort();
+            let dup = a.windows(2).any(|w| w[0] == w[1]);
+            !dup && msgs.len() >= firm && msgs.iter().all(|m| want.contains(m))
+        };
         if !ok {
-            let class = if msgs.len() < want.len() && msgs[..] == want[..msgs.len()] {
+            let class = if msgs.len() < want.len() && (scn.p > 1 || msgs[..] == want[..msgs.len()]) && msgs.iter().all(|m| want.contains(m)) {
                 "a client message was never dispatched"
             } else if msgs.len() > want.len() {
                 "a client message was dispatched more than once"
@@ -298,7 +307,7 @@ pub fn check(scn: &Scn, r: &ExecResult, log: &[Ev], choices: &[usize], s: &mut S
             s.violation("disconnect handler never called for a closed client", || ctx(format!("client {}", c)));
             continue;
         }
-        if ndis == 1 && !matches!(mine.last().unwrap(), Ev::D(_)) {
+        if scn.p == 1 && ndis == 1 && !matches!(mine.last().unwrap(), Ev::D(_)) {
             // with a heartbeat timeout the client may still have messages queued; only a Close frame orders them
             if has_close_frame && !scn.heartbeat {
                 s.violation("something was dispatched for a client after its disconnect", || ctx(format!("client {}", c)));
